@@ -12,7 +12,10 @@
     through the real Runner from isolated scopes so that tasks are independent error
     contexts; probe begin/end, submissions, TasksManager.Wait, Names and task states
     are validated by Trace_Pipeline.tla.
-(R) witness of the open finding D_WaitForAncestor."""
+(R) witness of the open finding D_WaitForAncestor.
+    Submissions from INSIDE bodies (pip:run in a body): a pipeline nested 2, 5, CPUs+2 and
+    2 x CPUs + 3 levels deep, and 3, CPUs+2, 2 x CPUs + 3 pipelines side by side each submitting one
+    nested pipeline: every body runs and the application scope's wait returns (watchdog)."""
 import json
 import vlib
 
@@ -45,6 +48,10 @@ def run(ctx):
         for i, line in enumerate(f):
             if i in (1, 3):
                 ctx.sample(json.loads(line))
+    wn = ctx.vh(['pipnest'], timeout=600)
+    ctx.cov['replay'].append(dict(what='submissions from inside bodies: nesting up to 2 x CPUs + 3 levels; up to 2 x CPUs + 3 pipelines side by side each submitting one', executed=wn['executed'], failures=wn['failures_by_key']))
+    ctx.cov['evaluations'] += wn['executed']
+    vlib.report_case_failures(ctx, wn, 'nested submissions')
     w = ctx.vh(['pipwitness'])
     ctx.cov['replay'].append(dict(what='witness D_WaitForAncestor', result={k: w[k] for k in w if not k.startswith('_')}))
     if w.get('inner_accepted') and w.get('manager_wait_returned') is False:
